@@ -80,7 +80,8 @@ def determinism(n):
     for chk in E1 + OTHERS:
         runs = n if chk in E1 else max(6, n // 6)
         files = []
-        for tag, workers, env in (('a', 16, {}), ('b', 5, {}), ('c', 16, {'VERIF_HASHSEED': '12345'})):
+        for tag, workers, env in (('a', 16, {}), ('b', 5, {}), ('c', 16, {'VERIF_HASHSEED': '12345'}),
+                                  ('d', 7, {'VERIF_HASHSEED': '12345'})):
             f = os.path.join(tmp, 'det-%s-%s.json' % (chk, tag))
             rc, o = run(['./run', chk, '--runs', str(runs), '--workers', str(workers), '--no-evidence', '--survey',
                          '--digests', f], env=env)
@@ -91,10 +92,14 @@ def determinism(n):
         if chk in out:
             continue
         ds = [json.load(open(f)) for f in files]
-        mism = [k for k in ds[0] if any(d.get(k) != ds[0][k] for d in ds[1:])]
-        out[chk] = {'runs': len(ds[0]), 'mismatching_runs': mism[:10], 'configurations': ['16 workers', '5 workers', '16 workers, PYTHONHASHSEED=12345']}
-        if chk == 'c15':
-            out[chk]['note'] = 'c15 varies PYTHONHASHSEED itself per simulated environment'
+        # the workers' hash seed is an input that the checks pin (0): a run is a function of (case, hash seed).
+        # Exactness is required for equal hash seeds across separately started drivers and worker counts; how many runs
+        # take a different schedule under another hash seed is reported for information (hash-ordered containers in
+        # the repository make the thread creation order depend on it)
+        mism = [k for k in ds[0] if ds[1].get(k) != ds[0][k]] + [k for k in ds[2] if ds[3].get(k) != ds[2][k]]
+        out[chk] = {'runs': len(ds[0]), 'mismatching_runs': mism[:10],
+                    'configurations': ['16 workers == 5 workers (PYTHONHASHSEED=0)', '16 workers == 7 workers (PYTHONHASHSEED=12345)'],
+                    'runs_whose_digest_depends_on_the_hash_seed': len([k for k in ds[0] if ds[2].get(k) != ds[0][k]])}
         if mism:
             ok = False
         print('determinism %-4s runs=%d mismatches=%d' % (chk, len(ds[0]), len(mism)), flush=True)
